@@ -6,8 +6,10 @@ package vm
 
 import (
 	"fmt"
+	"go/token"
 	"go/types"
 	"math"
+	"math/bits"
 	"regexp"
 	"strings"
 	"unsafe"
@@ -119,6 +121,44 @@ func init() {
 	reg("math.IsInf", func(fr *frame, a []value) value { return math.IsInf(a[0].(float64), int(asInt64(a[1]))) })
 	reg("math.IsNaN", func(fr *frame, a []value) value { return math.IsNaN(a[0].(float64)) })
 
+	// ---- math/bits: compact terms instead of 256-entry table reads ----
+	lenN := func(w int, k types.BasicKind) externalFn {
+		return func(fr *frame, a []value) value {
+			m := fr.i.m
+			x, ok := a[0].(sym)
+			if !ok {
+				u := uint64(asInt64(a[0]))
+				if w < 64 {
+					u &= (uint64(1) << uint(w)) - 1
+				}
+				return bits.Len64(u)
+			}
+			// Len(x) = number of bits needed: nested ite over thresholds
+			r := m.b.Const(64, 0)
+			for i := 0; i < w; i++ {
+				th := m.b.Const(w, uint64(1)<<uint(i))
+				r = m.b.Ite(m.b.Bin(smt.OpUle, th, x.t), m.b.Const(64, uint64(i+1)), r)
+			}
+			return m.val(r, types.Int)
+		}
+	}
+	reg("math/bits.Len8", lenN(8, types.Uint8))
+	reg("math/bits.Len16", lenN(16, types.Uint16))
+	reg("math/bits.Len32", lenN(32, types.Uint32))
+	reg("math/bits.Len64", lenN(64, types.Uint64))
+	reg("math/bits.Len", lenN(64, types.Uint))
+	lz := func(w int, name string) {
+		reg("math/bits.LeadingZeros"+name, func(fr *frame, a []value) value {
+			m := fr.i.m
+			l := intrinsics["math/bits.Len"+name](fr, a)
+			return binop(m, token.SUB, nil, w, l)
+		})
+	}
+	lz(8, "8")
+	lz(16, "16")
+	lz(32, "32")
+	lz(64, "64")
+
 	// ---- runtime / os ----
 	nop := func(fr *frame, a []value) value { return nil }
 	reg("runtime.SetFinalizer", nop)
@@ -147,6 +187,20 @@ func init() {
 	// ---- reflect (minimal) ----
 	reg("reflect.TypeFor", func(fr *frame, a []value) value {
 		return iface{t: rtypeType, v: rtype{fr.fn.TypeArgs()[0]}}
+	})
+	reg("reflect.DeepEqual", func(fr *frame, a []value) value {
+		m := fr.i.m
+		x, y := a[0].(iface), a[1].(iface)
+		if x.t == nil || y.t == nil {
+			return x.t == nil && y.t == nil
+		}
+		if !types.Identical(x.t, y.t) {
+			return false
+		}
+		if !types.Comparable(x.t) || hasPointers(x.t) {
+			m.unsupported("reflect.DeepEqual on %s (only pointer-free comparable types are modelled)", x.t)
+		}
+		return m.val(m.eqTerm(x.t, x.v, y.v), types.Bool)
 	})
 	reg("reflect.TypeOf", func(fr *frame, a []value) value {
 		return iface{t: rtypeType, v: rtype{a[0].(iface).t}}
@@ -676,3 +730,21 @@ func (m *machine) mix(v uint64) {
 }
 
 var _ = unsafe.Pointer(nil)
+
+// hasPointers: DeepEqual differs from == for pointers, interfaces, etc.
+func hasPointers(t types.Type) bool {
+	switch u := t.Underlying().(type) {
+	case *types.Basic:
+		return u.Kind() == types.UnsafePointer
+	case *types.Struct:
+		for i := 0; i < u.NumFields(); i++ {
+			if hasPointers(u.Field(i).Type()) {
+				return true
+			}
+		}
+		return false
+	case *types.Array:
+		return hasPointers(u.Elem())
+	}
+	return true
+}
